@@ -71,7 +71,7 @@ CHECKS = {
         technique="contract-based frame verification (write-frame and statement-order rules over the real ast of doctrans / ast_cst_utils, composed with C09's proved tiling contract); the property's own oracle on generated modules for the rest",
         text="PROVED (frame lemmas, all inputs): doctrans opens the file for writing exactly once, as its last statement, with nothing that can raise in repo code after the truncating open and the payload being the concatenation of the CST node values (so an error leaves the file intact); under doctransify_cst the only CST slots ever stored to are cst_idx (the def header) and cst_idx+1, the latter only when it is a docstring node or as an insertion. With C09 this yields: lines that are not definition headers or docstrings are byte-identical. "
              "BOUNDED only: that the re-rendered header and docstring keep the program (AST equality modulo docstrings/annotations/type comments), comments, validity — over generated modules. One known finding (comment inside a multi-line header).",
-        note="Assumed: CST node values are str; find_cst_at_ast returns the slot of the definition it was asked for (not proved; covered by the bounded AST comparison)."),
+        note="Assumed: CST node values are str. find_cst_at_ast is under an E1 contract (returned node is the element at the returned index, same name, mapped CST type)."),
     "C19": dict(
         category="other", design_ref="DESIGN.md §5 C19",
         technique="contract-based verification by dominance / frame / shape rules over the real ast of __main__.main, gen, gen_file and get_functions_and_classes; bounded run of gen and of the CLI for the rest",
